@@ -263,6 +263,11 @@ impl CommandAnalyzer {
                         self.index_type_definitions_in(inner_items, file_path);
                     }
                 }
+                // a payload type declared next to the emit that sends it
+                syn::Item::Fn(_) | syn::Item::Impl(_) => {
+                    let inner_items = Self::items_declared_in_bodies(item);
+                    self.index_type_definitions_in(&inner_items, file_path);
+                }
                 syn::Item::Struct(item_struct) => {
                     if self.struct_parser.should_include_struct(item_struct) {
                         let struct_name = item_struct.ident.unraw().to_string();
@@ -280,6 +285,31 @@ impl CommandAnalyzer {
                 _ => {}
             }
         }
+    }
+
+    /// The items declared among the statements of a function body, or of the methods of an impl
+    /// block (`#[derive(Serialize)] struct Progress { .. }` inside the command that emits it)
+    fn items_declared_in_bodies(item: &syn::Item) -> Vec<syn::Item> {
+        let blocks: Vec<&syn::Block> = match item {
+            syn::Item::Fn(item_fn) => vec![&*item_fn.block],
+            syn::Item::Impl(item_impl) => item_impl
+                .items
+                .iter()
+                .filter_map(|impl_item| match impl_item {
+                    syn::ImplItem::Fn(method) => Some(&method.block),
+                    _ => None,
+                })
+                .collect(),
+            _ => Vec::new(),
+        };
+        blocks
+            .into_iter()
+            .flat_map(|block| &block.stmts)
+            .filter_map(|stmt| match stmt {
+                syn::Stmt::Item(inner) => Some(inner.clone()),
+                _ => None,
+            })
+            .collect()
     }
 
     /// Lazily resolve types using the dependency graph
@@ -369,6 +399,14 @@ impl CommandAnalyzer {
                         {
                             return Some(found);
                         }
+                    }
+                }
+                syn::Item::Fn(_) | syn::Item::Impl(_) => {
+                    let inner_items = Self::items_declared_in_bodies(item);
+                    if let Some(found) =
+                        self.extract_type_from_items(&inner_items, type_name, file_path)
+                    {
+                        return Some(found);
                     }
                 }
                 syn::Item::Struct(item_struct) => {
